@@ -95,6 +95,45 @@ def eval_pair(case):
     return None, exp
 
 
+def eval_reuse(case):
+    """Verification keeps no memory: one implementation function reached in
+    two roles (a plain function stored on an instance, where its first
+    parameter is an ordinary one; a method of a class, where it is self; the
+    class itself under verifyClass), verified in either order, is judged each
+    time exactly as a fresh copy of the function is."""
+    (ir, io, iva, ikw), (mr, mo, mva, mkw), order = case
+    newworld()
+    I = InterfaceClass('I', (Interface,), {'m': mkfunc(sig_src(ir, io, iva, ikw)),
+                                           '__module__': wmod()})
+    src = sig_src(mr, mo, mva, mkw, self=True)
+
+    def verdict(f, role):
+        if role == 'func-attr':
+            K = implementer(I)(type('K', (), {}))
+            cand = K()
+            cand.m = f
+            v = verifyObject
+        elif role == 'method':
+            cand = implementer(I)(type('K', (), {'m': f}))()
+            v = verifyObject
+        else:
+            cand = implementer(I)(type('K', (), {'m': f}))
+            v = verifyClass
+        try:
+            v(I, cand)
+            return True
+        except BrokenMethodImplementation:
+            return False
+    shared = mkfunc(src)
+    for role in order:
+        cold = verdict(mkfunc(src), role)
+        got = verdict(shared, role)
+        if got != cold:
+            return ('verdict-depends-on-earlier-verification', 'iface(%s)' % sig_src(ir, io, iva, ikw),
+                    'impl(%s)' % src, order, role, got, cold)
+    return None
+
+
 DEFECTS = ['no_at', 'no_bat', 'no_m1', 'bad_m2', 'no_bm', 'undeclared', 'm3_not_callable']
 
 
@@ -180,6 +219,8 @@ def evaluate(arg):
             v, exp = eval_pair(case)
             acc += bool(exp)
             rej += not exp
+        elif kind == 'reuse':
+            v = eval_reuse(case)
         else:
             v = eval_subset(case)
         if v:
@@ -194,7 +235,8 @@ def _t(x):
 
 def replay(case):
     c = _t(case['case'])
-    v = eval_pair(c)[0] if case['kind'] == 'pair' else eval_subset(c)
+    v = eval_pair(c)[0] if case['kind'] == 'pair' else eval_reuse(c) if case['kind'] == 'reuse' \
+        else eval_subset(c)
     return dict(violation=v) if v else None
 
 
@@ -210,6 +252,9 @@ def run(ctx):
             for tentative in (False, True):
                 for vk in ('object', 'class'):
                     cases.append(('subset', (flags, tentative, vk)))
+    ROLES = ('func-attr', 'method', 'class')
+    cases += [('reuse', (a, b, o)) for a in GRID for b in GRID
+              for o in itertools.permutations(ROLES, 2)]
     for impl in ('c', 'py'):
         res = ctx.map(impl, 'evaluate', chunks(cases, 300))
         for r in res:
@@ -221,7 +266,8 @@ def run(ctx):
     ctx.count['transitions'] = ctx.count['evaluations']
     ctx.count['distinct_nontrivial'] = len(cases)
     ctx.sample(dict(pair=cases[len(cases) // 3][1], fields='(interface (required, optional, *args, **kw), implementation (...), kind, surplus count)'))
-    ctx.sample(dict(subset=cases[-5][1]))
+    ctx.sample(dict(subset=[c for c in cases if c[0] == 'subset'][-5][1]))
+    ctx.sample(dict(reuse=cases[-5][1], fields='(interface signature, implementation signature (+self), the two roles in which the same function object is verified, in order)'))
     return finish(
         ctx, 'model_checking',
         'all pairs of interface-method and implementation signatures in the grid x 4 candidate kinds, decided by binding every call shape the interface admits with inspect.signature; all 2^7 subsets of defects x tentative x verifyObject/verifyClass compared with the exact expected list of failures',
